@@ -16,7 +16,7 @@ TRUSTED = ["model of the OS directory: a file is name -> (bytes, time); rename (
 def run(ctx):
     ctx.driver_pid = "C18"
     hs = []
-    depth = ctx.n(2, 3)
+    depth = 2 if ctx.quick() else 3      # (28-letter alphabet: length 3 is for the thorough tier)
     for h in F.exhaustive_histories(depth, faults=True):
         hs.append(h)
     for _ in range(ctx.n(300, 4000)):
